@@ -669,6 +669,25 @@ impl Impl {
                 let r = fut.as_mut().poll(&mut cx);
                 format!("{} wakes={}", if r.is_ready() { "ready" } else { "pending" }, cw.0.load(std::sync::atomic::Ordering::SeqCst))
             }
+            ["g.pollh", pt, t] => {
+                let point: u8 = pt.parse().ok()?;
+                let i: usize = t.parse().ok()?;
+                if self.k.shutdown.is_none() { return Some("no-future".into()); }
+                // the token to drop inside the poll, at the requested scheduling point
+                let tok = match self.k.tokens.get_mut(i) { Some(slot @ Some(_)) => slot.take(), _ => return Some("no-token".into()) };
+                let cell = Arc::new(Mutex::new(tok));
+                let fired = Arc::new(std::sync::atomic::AtomicBool::new(false));
+                let (c2, f2) = (cell.clone(), fired.clone());
+                fastcgi_server::async_io::verif_hook::set(Some(Box::new(move |p| { if p == point { if let Some(t) = c2.lock().unwrap().take() { f2.store(true, std::sync::atomic::Ordering::SeqCst); drop(t); } } })));
+                let (fut, cw) = self.k.shutdown.as_mut().unwrap();
+                let waker = std::task::Waker::from(cw.clone());
+                let mut cx = Context::from_waker(&waker);
+                let r = fut.as_mut().poll(&mut cx);
+                fastcgi_server::async_io::verif_hook::set(None);
+                // hook not reached (future completed before the upgrade): the token was not dropped, put it back
+                if let Some(t) = cell.lock().unwrap().take() { self.k.tokens[i] = Some(t); }
+                format!("{} wakes={} hook={}", if r.is_ready() { "ready" } else { "pending" }, cw.0.load(std::sync::atomic::Ordering::SeqCst), if fired.load(std::sync::atomic::Ordering::SeqCst) { "fired" } else { "not-reached" })
+            }
             ["g.drop", t] => {
                 let i: usize = t.parse().ok()?;
                 match self.k.tokens.get_mut(i) { Some(slot @ Some(_)) => { *slot = None; } _ => return Some("no-token".into()) }
